@@ -120,7 +120,7 @@ c.ensures('frame[jobs_window]', lambda c: unchanged_field(c.pre, c.cur, 'jobs_wi
 # ---------------------------------------------------------------- wrapped
 c = contract('Window.run_job.<locals>.wrapped', F).returns('ref')
 c.free('self').free('job')
-c.for_props('C07', 'C03', 'C06', 'C12', 'C14', 'C02')
+c.for_props('C07', 'C03', 'C06', 'C12', 'C14', 'C02', 'C05', 'C08', 'C09', 'C11')
 c.rely_fields = ['_running', '_state', '_exception', '_result', '$finished_vt', '$cancel_req', '$cancel_vt']
 
 
@@ -129,6 +129,10 @@ def _wrapped_ghost_init(st):
     st.g['$bodycalls'] = z3.IntVal(0)
     st.g['$others'] = fresh('others', L.I)
     st.g['$vt'] = fresh('vt', L.R)
+    # what the body returned / raised: unknown until the body has been called (a path that returns without
+    # calling it cannot meet `returns-what-the-body-returned`)
+    st.g['$body-value'] = fresh('nobodyvalue', L.Ref)
+    st.g['$body-exc'] = fresh('nobodyexc', L.Ref)
     st.assume(st.g['$others'] >= 0)
 
 
@@ -159,8 +163,10 @@ c.ensures('slot-given-back', lambda c: c.cur.g['$contrib'] == 0, props=['C07', '
 c.ensures('body-ran-exactly-once', lambda c: c.cur.g['$bodycalls'] == 1, props=['C02', 'C14'])
 c.ensures('returns-what-the-body-returned', lambda c: c.result == c.cur.g['$body-value'], props=['C14'])
 c.ensures('finished-implies-running', lambda c: c.cur.f('_running', c.a.job), props=['C14'])
+# C05/C08/C09/C11: an abort cancels queued jobs too; it ends only if a cancelled wrapper neither keeps a slot
+# nor asks for one it does not hold (which would block on the empty queue)
 c.raises('CancelledError', 'slot-given-back', lambda c: c.cur.g['$contrib'] == 0,
-         props=['C07', 'C03', 'C12'])
+         props=['C07', 'C03', 'C12', 'C05', 'C08', 'C09', 'C11'])
 c.raises('CancelledError', 'body-ran-at-most-once', lambda c: c.cur.g['$bodycalls'] <= 1, props=['C02'])
 c.raises('CancelledError', 'not-running-if-cancelled-while-queued', lambda c: Implies(
     c.cur.g['$bodycalls'] == 0, c.cur.f('_running', c.a.job) == c.pre.f('_running', c.a.job)), props=['C14'])
